@@ -298,6 +298,22 @@ func offStamp(s stamp, now time.Time) string {
 	return fmt.Sprintf("%d/%d", int64(d), int64(s.min))
 }
 
+// shortest (then lexicographically first) history in which the strict reading would object
+var (
+	debMu   sync.Mutex
+	debBest string
+	debLen  int
+)
+
+func noteDebatable(h []event) {
+	k := fmt.Sprint(h)
+	debMu.Lock()
+	if debBest == "" || len(h) < debLen || (len(h) == debLen && k < debBest) {
+		debBest, debLen = k, len(h)
+	}
+	debMu.Unlock()
+}
+
 func exec(r *ev.Run, h []event) (string, string, *seqx.Failure) {
 	s := build()
 	m := &model{peers: map[string]report{}, lastGE: map[uint]stamp{}, anyGE: map[uint]stamp{}}
@@ -400,7 +416,7 @@ func exec(r *ev.Run, h []event) (string, string, *seqx.Failure) {
 							if uint(L) >= D || (c.has && now.Sub(c.at) < minD && now.Sub(c.at) < c.min) {
 								// strict reading (every sample counts, whatever the mode) would object here
 								r.Add("debatable_leftover_off_within_min_duration_of_a_sample_at_or_above_D", 1)
-								r.Sample(map[string]any{"debatable": "always->monitor left-over switched off within MinimumActivationDuration of a level >= DeactivationLevel", "history": fmt.Sprint(h)})
+								noteDebatable(h)
 							}
 						}
 					}
@@ -529,6 +545,29 @@ func main() {
 		alphabet = append(alphabet, event{Op: "mode", L: i})
 	}
 	alphabet = append(alphabet, event{Op: "thr"}, event{Op: "mind"})
+	// VERIF_HISTORY="mode(always);recalc(100);mode(monitor);recalc(0)" runs one history and prints the verdict
+	if hs := os.Getenv("VERIF_HISTORY"); hs != "" {
+		var h []event
+		for _, name := range strings.Split(hs, ";") {
+			found := false
+			for _, e := range alphabet {
+				if e.String() == strings.TrimSpace(name) {
+					h, found = append(h, e), true
+				}
+			}
+			if !found {
+				ev.Harness("unknown event %q", name)
+			}
+		}
+		for i := 1; i <= len(h); i++ {
+			c, o, f := exec(r, h[:i])
+			fmt.Printf("%-16v outcome=%s canon=%s fail=%v\n", h[i-1], o, c, f)
+		}
+		for _, k := range []string{"leftover_on_from_always_mode", "leftover_switched_off", "debatable_leftover_off_within_min_duration_of_a_sample_at_or_above_D"} {
+			fmt.Printf("%s=%d\n", k, r.Count(k))
+		}
+		os.Exit(0)
+	}
 	depth := ev.Pick(r, 7, 9)
 	if d := os.Getenv("VERIF_DEPTH"); d != "" {
 		fmt.Sscan(d, &depth)
@@ -540,6 +579,9 @@ func main() {
 		MaxDepth: depth, Workers: 16,
 	})
 	r.Set("traces_validated_against_impl", r.Count("transitions"))
+	if debBest != "" {
+		r.Set("debatable_example", "always->monitor left-over switched off within MinimumActivationDuration of a level >= DeactivationLevel: "+debBest)
+	}
 	var as []string
 	for _, e := range alphabet {
 		as = append(as, e.String())
